@@ -500,8 +500,15 @@ class DPTComplex(DPTBase, Generic[_ComplexDataT]):
         """Serialize to KNX/IP raw data."""
         try:
             if isinstance(value, cls.data_type):
-                return cls._to_knx(value)
-            return cls._to_knx(cls.data_type.from_dict(value))  # type: ignore[arg-type]
+                payload = cls._to_knx(value)
+            else:
+                payload = cls._to_knx(cls.data_type.from_dict(value))  # type: ignore[arg-type]
+            if isinstance(payload, DPTArray):
+                for octet in payload.value:
+                    # eg. a float field: the payload could not be put on the wire
+                    if not isinstance(octet, int) or not 0 <= octet <= 255:
+                        raise ValueError(f"Invalid octet in payload: {octet!r}")
+            return payload
         except (ValueError, TypeError, AttributeError, ConversionError) as err:
             raise ConversionError(
                 f"Could not serialize {cls.dpt_name()}: {err}", value=value
